@@ -44,7 +44,7 @@ def anchors():
         a = p["anchors"]
         text = json.dumps(a)
         for f in a["files"]:
-            if f.endswith(".py"):
+            if f.endswith(".py") or f.endswith(".pyx"):
                 out.setdefault(f, {})[p["id"]] = text
     return out
 
@@ -54,7 +54,7 @@ def enclosing_functions(src):
     names = {}
     stack = []
     for n, line in enumerate(src.split("\n"), 1):
-        m = re.match(r"^(\s*)def\s+(\w+)", line)
+        m = re.match(r"^(\s*)def\s+(\w+)", line) or re.match(r"^(\s*)c?p?def\s+[^(=]*?(\w+)\s*\(", line)
         if m:
             ind = len(m.group(1))
             while stack and stack[-1][0] >= ind:
@@ -170,6 +170,8 @@ def main():
         free.put(t)
 
     def pids_for(f, func):
+        if f.endswith(".pyx"):
+            return ["C15"]
         m = anc[f]
         hit = [p for p, text in m.items() if func and re.search(r"\b%s\b" % re.escape(func), text)]
         rest = [p for p in m if p not in hit]
@@ -187,17 +189,19 @@ def main():
                "text": orig.split("\n")[pt[0] - 1].strip()}
         try:
             mut = apply_point(orig, pt)
-            try:
-                compile(mut, f, "exec")
-            except SyntaxError:
-                res["result"] = "syntax"
-                return res
+            if f.endswith(".py"):
+                try:
+                    compile(mut, f, "exec")
+                except SyntaxError:
+                    res["result"] = "syntax"
+                    return res
             open(path, "w").write(mut)
             env = dict(os.environ, PYTHONPATH=os.path.join(wt, "src"), PYTHONHASHSEED="0")
-            rc, out = sh(["/venv/bin/python", "-m", "pytest", "-q", "-x", "-p", "no:cacheprovider", "tests"], cwd=wt, env=env, timeout=600)
-            if rc != 0:
-                res["result"] = "tests"
-                return res
+            if f.endswith(".py"):         # the .pyx is not built here: the suite cannot see it
+                rc, out = sh(["/venv/bin/python", "-m", "pytest", "-q", "-x", "-p", "no:cacheprovider", "tests"], cwd=wt, env=env, timeout=600)
+                if rc != 0:
+                    res["result"] = "tests"
+                    return res
             env2 = dict(os.environ, VERIF_REPO=wt, VERIF_SKIP_A="1", VERIF_CBUILD=os.path.join(wt, ".cbuild"))
             res["checks"] = {}
             res["result"] = "undetected"
